@@ -41,6 +41,12 @@ impl FileLock {
     }
 
     fn lock_inner(path: PathBuf, blocking: bool) -> Result<Option<Self>, FileLockError> {
+        #[cfg(feature = "jj_vcs_jj_verif")]
+        let path = crate::verif_hooks::lock_path(path);
+        #[cfg(feature = "jj_vcs_jj_verif")]
+        if blocking {
+            crate::verif_hooks::lock_acquire(&path);
+        }
         tracing::info!("Attempting to lock {path:?}");
         let operation = if blocking {
             FlockOperation::LockExclusive
@@ -110,5 +116,7 @@ impl Drop for FileLock {
         // They're responsible for creating and locking a new lockfile, since we
         // just deleted this one.
         rustix::fs::flock(&self.file, FlockOperation::Unlock).ok();
+        #[cfg(feature = "jj_vcs_jj_verif")]
+        crate::verif_hooks::lock_released(&self.path);
     }
 }
